@@ -22,17 +22,17 @@ fn space_for(tier: Tier) -> (Space, usize) {
     let mut s = Space::new();
     match tier {
         Tier::Quick => {
-            s.ast("K", 3, 16).ast("CL", 3, 16).tok("T0", &gen::T_CORE, 2, 16);
+            s.ast("K", 3, 16).ast("CL", 3, 16).tok("T0", &gen::T_CORE, 2, 16).ast("NESTX", 3, 4);
             (s, 2)
         }
         Tier::Thorough => {
-            s.ast("K", 4, 16).ast("CL", 3, 16).ast("G", 4, 16).tok("T0", &gen::T_CORE, 3, 16).tok("T", &gen::T_FULL, 2, 16);
+            s.ast("K", 4, 16).ast("CL", 3, 16).ast("G", 4, 16).tok("T0", &gen::T_CORE, 3, 16).tok("T", &gen::T_FULL, 2, 16).ast("NESTX", 4, 4);
             (s, 2)
         }
     }
 }
 
-const INPUTS: [&str; 12] = ["", "a", "b", "ab", "aab", " ", "a b", "a\tb", "\n", "1", "a\u{c}b", "\u{a0}"];
+const INPUTS: [&str; 17] = ["", "a", "b", "ab", "aab", " ", "a b", "a\tb", "\n", "1", "a\u{c}b", "\u{a0}", "c", "ca", "cab", "ccb", "[a]b"];
 
 fn observe(text: &str, flags: &str, extra_input: &str) -> Vec<String> {
     let mut v = vec![];
@@ -79,7 +79,7 @@ impl Check for C14 {
         space::for_each_text(seg, lo, hi, &mut |_i, text| {
             let chars: Vec<char> = text.chars().collect();
             let n = chars.len();
-            if n > 10 {
+            if n > 16 {
                 return;
             }
             // gap sets: positions 0..=n, subsets of size 1..=k
